@@ -1,4 +1,5 @@
 import VirVerif.Drv.Hier
+import VirVerif.Model.Sampling
 namespace VirVerif.Drv
 open VirVerif
 
@@ -13,11 +14,20 @@ def handleC07 : Handler := fun st toks =>
       let d := m.size
       if rest'.length < n * d then some "ERR parse" else
       let us := (rest'.take (n * d)).map fOfTok |>.toArray
-      let byRow := (List.range n).map fun j => (List.range d).map fun i => us[i * n + j]!
+      let byRow := (streamToRows n d us).map fun r => r.map (·.getD nan)
       match sampleRows (condOf m) (qOf st m) byRow with
       | some rows => some (rowsOut rows)
       | none => some "ERR uninit"
     | _ => some "ERR parse"
+  | "rvssize" :: n :: rest =>
+    -- rvssize <n> (s | v<len>)*  → flat n | matrix n len
+    let pars := rest.map fun t => if t == "s" then ParShape.scalar else ParShape.vector (t.drop 1).toNat!
+    match rvsSize n.toNat! pars with
+    | .flat k => some s!"OK flat {k}"
+    | .matrix k l => some s!"OK matrix {k} {l}"
+  | "conddraws" :: n :: rest =>
+    let pars := rest.map fun t => if t == "s" then ParShape.scalar else ParShape.vector (t.drop 1).toNat!
+    some s!"OK {condDrawCount n.toNat! pars}"
   | _ => none
 
 end VirVerif.Drv
